@@ -517,6 +517,53 @@ def run(prog):
             continue
         fn = fs_[0]
         asm = assumption(prog, fn, kind)
+        if not asm and kind[0] == "item":
+            # the items are consumed by closures of an iterator chain over the list: evaluate each closure with its item empty
+            # walk each chain from the list outwards: a `filter` whose predicate is false for an empty item drops it
+            chains = []
+            for cs in fn.terms.calls:
+                if not cs.args:
+                    continue
+                seq, t = [], ("call", cs.callee, tuple(cs.args))
+                while isinstance(t, tuple) and t and t[0] == "call" and t[2]:
+                    seq.append(t)
+                    t = strip(t[2][0])
+                if is_field(kind[1])(t) and len(seq) > 1:
+                    chains.append(list(reversed(seq)))
+            # keep the longest chains only (every prefix of a chain is a call as well)
+            chains = [c for c in chains if not any(len(o) > len(c) and o[:len(c)] == c for o in chains)]
+            if chains:
+                fnd, undecided, n_clo = [], None, 0
+                try:
+                    for ch in chains:
+                        for t in ch:
+                            clo = [strip(a) for a in t[2][1:] if strip(a)[0] == "agg" and strip(a)[1] == "closure"]
+                            ks = [k_ for c_ in clo for k_ in prog.fns if k_.npath == c_[2]]
+                            if not ks:
+                                continue
+                            n_clo += 1
+                            if t[1].name in ("filter", "take_while", "skip_while", "filter_map"):
+                                e = Ev(prog, ks[0], [("param", 2), ("deref", ("param", 2))])
+                                e.walk()
+                                v = e.ev(ks[0].terms.ret)
+                                if v == ("B", False) and t[1].name in ("filter", "take_while"):
+                                    break            # the empty item never reaches the later stages
+                                if v[0] != "B":
+                                    undecided = "the predicate of `%s` is not decided for an empty item" % t[1].name
+                                    break
+                                continue
+                            fnd += Ev(prog, ks[0], [("param", 2), ("deref", ("param", 2))]).findings(what, (fn.name,))
+                except RecursionError:
+                    undecided = "evaluation did not terminate"
+                fnd = [f for i, f in enumerate(fnd) if f not in fnd[:i]]
+                if fnd:
+                    out.append(inst("EM", k, VIOLATION, fn, None, "; ".join(m for _, m in fnd[:2])))
+                elif undecided:
+                    out.append(inst("EM", k, UNDECIDED, fn, None, undecided))
+                else:
+                    out.append(inst("EM", k, OK, fn, None, "no panic, unsigned underflow or 0-divisor is reached definitely for %s (%d stage(s) of "
+                                    "the iterator chain over the items evaluated with an empty item)" % (what, n_clo)))
+                continue
         if not asm:
             out.append(inst("EM", k, UNDECIDED, fn, None, "the collection assumed empty (%s) was not located in the function" % (kind,)))
             continue
